@@ -43,6 +43,7 @@ def refStep (env : Env) (t : Table) (h : Heap) (op : String) (cur arg : Val) : S
   if op == "." then classify env op (pyGetattr2 env.k h cur arg)
   else if op == "[" then classify env op (pyGetitem2 env.k h cur arg)
   else if op == "P" then
+    if !(modelled h cur) then .beyond else      -- an object the kernel does not describe: class unknown
     match t.nearest env.k.ct (cur.clsName h) with
     | some hn => classify env op (env.applyHandler h hn cur arg)
     | none => .noHandler
@@ -83,6 +84,7 @@ def refLog (env : Env) (t : Table) (h : Heap) (op : String) (cur arg : Val) : Li
   if op == "." then attrLog env.k h cur arg
   else if op == "[" then itemLog env.k h cur
   else if op == "P" then
+    if !(modelled h cur) then [] else
     match t.nearest env.k.ct (cur.clsName h) with
     | some hn => env.handlerLog h hn cur arg
     | none => []
@@ -147,11 +149,13 @@ def histTable : Table → List Event → Table
   | t, [] => t
   | t, .register c hn ex :: es => histTable (t.register c hn ex) es
   | t, .glom _ _ :: es => histTable t es
+  | t, .probe _ :: es => histTable t es
 
 def refHistory (env : Env) (h : Heap) : Table → List Event → List RefCall
   | _, [] => []
   | t, .register c hn ex :: es => refHistory env h (t.register c hn ex) es
   | t, .glom steps tgt :: es => refCall env t h steps tgt :: refHistory env h t es
+  | t, .probe _ :: es => refHistory env h t es          -- a lookup changes no table
 
 /-! ### observation and checker -/
 
@@ -228,6 +232,7 @@ def wfEvents : List Event → Bool
   | [] => true
   | .register .. :: es => wfEvents es
   | .glom steps _ :: es => wfSteps steps && wfEvents es
+  | .probe _ :: es => wfEvents es
 
 /-- memo coherence: every memoised handler is the one the table gives (a memoised
     `False`: the table gives none) -/
